@@ -86,30 +86,39 @@ def validateSetPower (lf : LimitFacts) (target : Option Nat) (power : Nat) : Opt
 
 /-! ### handlers -/
 
+/-- `percent := (totalChanged * 100) / cachedPower; percent >= 30` in unsigned 64-bit arithmetic -/
+def limitExceeded (lf : LimitFacts) (absCh cached : Nat) : Bool :=
+  if lf.ge then decide (((absCh * lf.mul) % U64) / cached ≥ lf.pct) else decide (((absCh * lf.mul) % U64) / cached > lf.pct)
+
 /-- the 30 % check after the power was applied -/
 def limitCheck (lf : LimitFacts) (s : App) (unsafeFlag : Bool) : Except Err App :=
   if !unsafeFlag && s.height > lf.heightGate then
     if s.cached = 0 then .error Err.unsafePower
-    else
-      let percent := ((s.absCh * lf.mul) % U64) / s.cached
-      if (if lf.ge then decide (percent ≥ lf.pct) else decide (percent > lf.pct)) then .error Err.unsafePower
-      else .ok s.updateBondedPool
+    else if limitExceeded lf s.absCh s.cached then .error Err.unsafePower
+    else .ok s.updateBondedPool
   else .ok s.updateBondedPool
+
+/-- "Accept a validator into the active set if they are pending approval" -/
+def admitIfPending (s : App) (target : Option Nat) : App :=
+  match target with
+  | some op =>
+    (match s.pendingFind op with
+     | some p => s.acceptNew p
+     | none => s)
+  | none => s
+
+/-- `SetPower` after the authority check and `Validate` -/
+def setPowerCore (lf : LimitFacts) (s : App) (target : Option Nat) (power : Nat) (unsafeFlag : Bool) : Except Err App :=
+  match (s.admitIfPending target).setPOAPower target (toInt64 power) with
+  | .error e => .error e
+  | .ok s2 => limitCheck lf s2 unsafeFlag
 
 def setPowerMsg (lf : LimitFacts) (s : App) (sg : Signer) (target : Option Nat) (power : Nat) (unsafeFlag : Bool) : Except Err App :=
   if !isAdmin sg then .error Err.notAnAuthority
   else
     match validateSetPower lf target power with
     | some e => .error e
-    | none =>
-      let s1 := match target with
-        | some op => (match s.pendingFind op with
-                      | some p => s.acceptNew p
-                      | none => s)
-        | none => s
-      match s1.setPOAPower target (toInt64 power) with
-      | .error e => .error e
-      | .ok s2 => limitCheck lf s2 unsafeFlag
+    | none => setPowerCore lf s target power unsafeFlag
 
 def isActive (v : Val) : Bool := v.status == .bonded && !v.jailed && decide (powerOf v.tokens > 0)
 
